@@ -49,13 +49,15 @@ func init() {
 func runC17(a *A) {
 	c17R1(a)
 	c17R2(a)
-	r := resolveRoles(a, "C17-R0")
-	if r == nil {
-		return
+	if r := resolveRolesG(a, "C17-R0", "p"); r != nil {
+		c17R3(a, r)
+		if rc := resolveRolesG(a, "C17-R3", "c"); rc != nil {
+			c17R3Ctor(a, rc)
+		}
 	}
-	ar := armAnalysis(a.W, r)
-	c17R3(a, r)
-	c17R4(a, r, ar)
+	if rt := resolveRolesG(a, "C17-R4", "pt"); rt != nil {
+		c17R4(a, rt, armAnalysis(a.W, rt))
+	}
 }
 
 // R1: accept-set of IsValid.
@@ -319,7 +321,12 @@ func c17R3(a *A, r *Roles) {
 	})
 	// events handed to the closures are the stripped event (checked in C03-R3); uses inside the commit closure are on its parameter
 	a.atLeast(rule, "gated@parser", 10)
-	// the reader builds a type whose IsValid is binlogEvent.IsValid
+}
+
+// the reader builds a type whose IsValid is binlogEvent.IsValid
+func c17R3Ctor(a *A, r *Roles) {
+	const rule = "C17-R3"
+	w := a.W
 	var ctor *ssa.Function
 	instrs(r.ReadEvent, func(in ssa.Instruction) {
 		if c, ok := in.(*ssa.Call); ok {
